@@ -204,8 +204,8 @@ def role_fn(f, role):
         "enqueue": ("retained", GROW),
         "queue_release": ("pending_release", GROW),
         "queue_control": ("pending_control", GROW),
-        "retained_removal": ("retained", ("remove", "swap_remove")),
-        "release_removal": ("pending_release", ("remove", "swap_remove")),
+        "retained_removal": ("retained", ("remove", "swap_remove", "retain")),
+        "release_removal": ("pending_release", ("remove", "swap_remove", "retain")),
         "clear": ("retained", ("clear",)),
     }
     q, ms = table[role]
@@ -337,10 +337,21 @@ def _field_of(t, name, adt):
     return False
 
 
+def _counter_fields(f):
+    """names of the 16-bit scalar fields of SessionData (the identifier counter, whatever it is called)"""
+    out = []
+    for v in f.adts.get(SDATA, {}).get("variants", [{}])[0].get("fields", []):
+        ty = v.get("ty") or ""
+        if ty == "u16" or ("NonZero" in ty and "u16" in ty):
+            out.append(v["name"])
+    return out
+
+
 @cached
 def allocator(f):
-    """the identifier allocator: the SessionData method returning u16 that (transitively) writes the `packet_id`
-    counter and is the one the enqueueing operations call"""
+    """the identifier allocator: the SessionData method returning u16 that (transitively) writes the 16-bit counter
+    field of SessionData and is the one the enqueueing operations call"""
+    names = _counter_fields(f)
     cands = []
     for b in f.bodies.values():
         if b.kind == "assoc_fn" and roles.self_is(b, SDATA) and b.locals[0]["ty"] == "u16" and not f.in_fuzzing(b):
@@ -351,12 +362,12 @@ def allocator(f):
                 for (bb, j, dst, rv, s) in rb.stores():
                     if bb not in rb.reachable:
                         continue
-                    if any(isinstance(e, dict) and e.get("name") == "packet_id" and e.get("of") == SDATA for e in dst["proj"]):
+                    if any(isinstance(e, dict) and e.get("name") in names and e.get("of") == SDATA for e in dst["proj"]):
                         writes = True
                     else:
-                        # through a `&mut self.packet_id` handed to a helper that was folded in
+                        # through a `&mut self.<counter>` handed to a helper that was folded in
                         t_ = rb.place_term(dst)
-                        if any(isinstance(x, tuple) and x[0] == "field" and x[2] == "packet_id" and x[3] == SDATA for x in walk(t_)):
+                        if any(isinstance(x, tuple) and x[0] == "field" and x[2] in names and x[3] == SDATA for x in walk(t_)):
                             writes = True
             if writes:
                 cands.append(b)
@@ -373,9 +384,31 @@ def allocator(f):
                     break
         cands = ext
     if len(cands) != 1:
-        raise AnchorLost("id-allocator", "expected one SessionData method returning u16 that advances `packet_id` and is "
-                         "called by the operations, found %s" % [b.fn_name for b in cands])
+        raise AnchorLost("id-allocator", "expected one SessionData method returning u16 that advances the 16-bit counter %s and is "
+                         "called by the operations, found %s" % (names, [b.fn_name for b in cands]))
     return cands[0]
+
+
+def counter_field(f):
+    """(name, type) of the counter field the allocator advances"""
+    alloc = allocator(f)
+    names = _counter_fields(f)
+    hit = set()
+    for n in f.reachable_bodies([alloc.name]):
+        rb = f.bodies[n]
+        for (bb, j, dst, rv, s) in rb.stores():
+            if bb in rb.reachable:
+                for e in dst["proj"]:
+                    if isinstance(e, dict) and e.get("name") in names and e.get("of") == SDATA:
+                        hit.add(e["name"])
+                for x in walk(rb.place_term(dst)):
+                    if isinstance(x, tuple) and x[0] == "field" and x[2] in names and x[3] == SDATA:
+                        hit.add(x[2])
+    if len(hit) != 1:
+        raise AnchorLost("id-counter", "expected one counter field advanced by the allocator, found %s" % sorted(hit))
+    nm = hit.pop()
+    ty = [v["ty"] for v in f.adts[SDATA]["variants"][0]["fields"] if v["name"] == nm][0]
+    return nm, ty
 
 
 @cached
@@ -589,8 +622,14 @@ def clause_removal_index(R, key, fn, q, id_param="packet_id", id_field="packet_i
     code = f.code(fn)
     rms = [c for c in code.calls.values() if c.bb in code.reachable and mname(c) in ("remove", "swap_remove") and len(c.args) >= 2
            and any(x[0] == "field" and x[2] == q and x[3] == OUTBOUND for x in walk(code.operand_term(c.args[0])))]
-    ok = bool(rms)
-    why = "" if rms else "no removal found"
+    # `list.retain(|e| e.id != id)`: drops exactly the entries carrying that identifier
+    rts = [c for c in code.calls.values() if c.bb in code.reachable and mname(c) in ("retain", "retain_mut") and len(c.args) >= 2
+           and any(x[0] == "field" and x[2] == q and x[3] == OUTBOUND for x in walk(code.operand_term(c.args[0])))]
+    ok = bool(rms) or bool(rts)
+    why = "" if ok else "no removal found"
+    for c in rts:
+        if not _pred_is_id_eq(f, code, c.args[1], id_field, id_param, op="Ne"):
+            ok, why = False, "retain() keeps entries by a test other than `entry.%s != %s`" % (id_field, id_param)
     sites = _position_sites(code)
     for c in rms:
         for src in index_sources(code, c.args[1], sites):
@@ -670,6 +709,66 @@ def clause_removal_index(R, key, fn, q, id_param="packet_id", id_field="packet_i
          "the matching entry in the whole list)%s" % (fn.fn_name, q, "" if ok else " — " + why), where=fn.span)
 
 
+def clause_removal_result(R, key, fn, q):
+    """The removal function tells its caller whether an entry was removed -- the inbound handler returns a window slot,
+    reports the acknowledgement and opens the release exchange on `true`, and treats the packet as stale on `false`.
+    So: every path that returns true has removed an entry of q, every path that returns false has removed none; in the
+    `retain` form the result is the comparison of the list length before and after."""
+    from .. import paths as _paths
+    f = R.f
+    code = f.code(fn)
+    def on_q(c):
+        return len(c.args) >= 1 and any(x[0] == "field" and x[2] == q and x[3] == OUTBOUND for x in walk(code.operand_term(c.args[0])))
+    rms = set(c.bb for c in code.calls.values() if c.bb in code.reachable and mname(c) in ("remove", "swap_remove") and on_q(c))
+    rts = [c for c in code.calls.values() if c.bb in code.reachable and mname(c) in ("retain", "retain_mut") and on_q(c)]
+    ok, why = True, ""
+    if code.locals[0]["ty"] != "bool":
+        R.ob(key, True, "`%s` does not report a boolean (result type %s)" % (fn.fn_name, code.locals[0]["ty"]), where=fn.span)
+        return
+    if rts and not rms:
+        r = peel(code.local_term(0))
+        def is_len(t):
+            t = peel(t)
+            if t[0] == "cast":
+                t = peel(t[2])
+            return is_call(t, "len") and t[3] and chain(t[3][0])[1][-1:] == [q]
+        good = False
+        for alt in phi_alts(r):
+            a = peel(alt)
+            neg = False
+            if a[0] == "un" and a[1] == "Not":
+                a, neg = peel(a[2]), True
+            cmp_len = a[0] == "bin" and (is_len(a[2]) or is_len(a[3]))
+            if cmp_len and ((a[1] in ("Ne", "Lt", "Gt") and not neg) or (a[1] == "Eq" and neg)):
+                good = True
+            else:
+                good = False
+                break
+        if not good:
+            ok, why = False, "with retain() the result must compare the length of `%s` before and after (found %s)" % (q, show(r)[:120])
+    elif rms:
+        leaves = _paths.explore(code, 0, lambda t: False, lambda b, x: x in rms, max_paths=2000)
+        n = 0
+        for lf in leaves:
+            if lf["kind"] != "return":
+                continue
+            n += 1
+            v = _paths.value_on_path(code, lf["path"], 0)
+            v = peel(v) if v is not None else None
+            if v is None or v[0] != "const":
+                ok, why = False, "a result that is not a constant on its path (%s)" % (show(v)[:80] if v else "unknown")
+            elif bool(v[2]) != bool(lf["marked"]):
+                ok, why = False, ("returns true without having removed an entry" if v[2] else "returns false after removing an entry")
+        if n == 0:
+            ok, why = False, "no return path found"
+    else:
+        ok, why = False, "no removal found"
+    R.ob(key, ok,
+         "`%s` returns true exactly when it removed an entry of `%s` (the caller credits the window / reports the "
+         "acknowledgement on true and ignores the packet as stale on false)%s" % (fn.fn_name, q, "" if ok else " — " + why),
+         where=fn.span)
+
+
 def _iterates(recv, q, tail):
     """recv is an iterator over the whole queue q (tail=False) or over q without its first entry (tail=True)"""
     x = recv
@@ -710,7 +809,7 @@ def _is_first_of(t, q):
     return False
 
 
-def _pred_is_id_eq(f, code, fop, id_field, id_param):
+def _pred_is_id_eq(f, code, fop, id_field, id_param, op="Eq"):
     """the closure handed to position() is |e| e.<id_field> == <captured id_param>"""
     from .ops import _closure_defs
     from ..core import subst
@@ -746,9 +845,13 @@ def _pred_is_id_eq(f, code, fop, id_field, id_param):
             env = dict(zip(x[4], x[5]))
     r = peel(cb.local_term(0))
     sides = None
-    if r[0] == "bin" and r[1] == "Eq":
+    neg = False
+    if r[0] == "un" and r[1] == "Not":
+        r, neg = peel(r[2]), True
+    if r[0] == "bin" and r[1] in ("Eq", "Ne") and (r[1] == op) != neg:
         sides = (peel(r[2]), peel(r[3]))
-    elif is_call(r, "PartialEq::eq", "eq") and len(r[3]) == 2:
+    elif is_call(r, "PartialEq::eq", "eq", "PartialEq::ne", "ne") and len(r[3]) == 2 \
+            and (("Ne" if r[2].endswith("ne") else "Eq") == op) != neg:
         sides = (peel(r[3][0]), peel(r[3][1]))
     if sides is None:
         return False
